@@ -5,12 +5,19 @@
    clean-up, write, memtable flush, merging compaction) as the sequence of file-system mutating
    calls it issues, over files that are lists of whole write() calls with a durable prefix.
    Transition system `reach` (Crash/ProofsLts.v): from the empty directory, any sequence of open /
-   write / flush / compaction, and a crash before ANY system call of any of them — the calls of
+   write / flush / compaction (merging or garbage-collecting), an operation that returns an I/O
+   error before it changed a file recovery reads or that the store refuses outright - after which
+   the history CONTINUES -, and a crash before ANY system call of any of them — the calls of
    recovery included — under ANY cut (`cut`: every file independently keeps a prefix of its
    write() calls that covers the synced ones; process death = keep everything, power loss as the
    property words it = keep exactly the synced prefix; both are instances), any number of times.
-   Ghost fields: `c_ack` the batches whose write call returned Ok, `c_fly` the batches that were in
-   flight at some crash. *)
+   Ghost field `c_hist`: every write batch issued so far, in order, flagged true when its call
+   returned Ok and false when a crash took it in flight.  `sel h W`: W keeps every acknowledged
+   batch of h and some of the others, each whole, in order.  `explains W E`: for every key the
+   newest version among the entries E reads as the last write to that key in W (`shows`, `spec`),
+   and every entry of E belongs to a batch of W.  The statements are about what a reader can
+   observe, so that garbage collection - which drops shadowed versions and tombstones - is a step
+   of the transition system like any other (`accepted`). *)
 From Coq Require Import NArith List Bool.
 From Blue Require Import Lsm.Model Lsm.LoadProofs Lsm.Ordered Crash.Model Crash.ProofsFs Crash.ProofsInv Crash.ProofsSteps
   Crash.ProofsOps Crash.ProofsOpen Crash.ProofsCompact Crash.ProofsLts Crash.ProofsTop.
@@ -18,18 +25,37 @@ Import ListNotations.
 Open Scope N_scope.
 
 (* ---- 1. crash safety (the central theorem).
-   Whenever the process is down — after any history, with any number of crashes at any system call
-   and any loss of unsynced data — KeyValueStore::open succeeds: none of its calls fails, every
+   Whenever the process is down - after any history, with any number of crashes at any system call
+   and any loss of unsynced data - KeyValueStore::open succeeds: none of its calls fails, every
    SST the manifest lists is there, the store that comes up satisfies the running invariant, and
-   it holds EXACTLY the entries of every acknowledged batch plus those of a sub-list of the batches
-   that were in flight at a crash, each such batch wholly or not at all; nothing else. *)
+   its entries are explained by the acknowledged batches plus some of the batches that were in
+   flight at a crash, each such batch wholly or not at all: every key reads as the last of those
+   writes to it, and the store holds no entry that was not written. *)
 Theorem C02_crash_safe : forall c, reach c -> c_v c = None ->
   exists s', run (fst (fst (open_prog (c_fs c)))) (c_fs c) = (s', None) /\
              snd (open_prog (c_fs c)) = true /\
              Run s' (snd (fst (open_prog (c_fs c)))) /\
-             exists ch, sub ch (c_fly c) /\
-               forall e, In e (all_entries (snd (fst (open_prog (c_fs c))))) <-> In e (concat (c_ack c) ++ concat ch).
+             exists W, sel (c_hist c) W /\ explains W (all_entries (snd (fst (open_prog (c_fs c))))).
 Proof. exact crash_safe. Qed.
+
+(* ---- 1b. what `sel` keeps: every acknowledged batch, and nothing that was not issued. *)
+Theorem C02_acknowledged_kept : forall h W, sel h W -> forall b, In (true, b) h -> In b W.
+Proof. exact sel_acked. Qed.
+
+Theorem C02_nothing_invented : forall h W, sel h W -> forall b, In b W -> exists a, In (a, b) h.
+Proof. exact sel_from. Qed.
+
+(* ---- 1c. which compactions are steps.  A merge - outputs holding exactly the inputs' entries -
+   always is; any other (a garbage collection) is when it leaves what every key reads as unchanged,
+   which is C05's theorem about the real tree and which the driver evaluates (`acceptedb`) on every
+   compaction of every history. *)
+Theorem C02_merge_accepted : forall v gc ins outs, ts_unique (all_entries v) ->
+  incl ins (v_files v) -> (forall e, In e (concat outs) <-> In e (concat ins)) ->
+  accepted v (OpCompact gc ins outs).
+Proof. exact merge_accepted. Qed.
+
+Theorem C02_acceptedb_sound : forall v o, acceptedb v o = true -> accepted v o.
+Proof. exact acceptedb_sound. Qed.
 
 (* ---- 2. both crash models of the property are cuts: what is left when the process dies between
    two calls (everything written is kept) and what is left when, in addition, every byte written
@@ -38,10 +64,9 @@ Theorem C02_crash_models_covered : forall s, cut s (image_a s) /\ cut s (image_b
 Proof. intros s. split; [apply cut_refl_image_a|apply cut_image_b]. Qed.
 
 (* ---- 3. the same accounting holds while the store is open (so a write acknowledged before a
-   crash-and-reopen is still there many operations later). *)
+   crash-and-reopen is still what its keys read as many operations later). *)
 Theorem C02_open_store_contents : forall c v, reach c -> c_v c = Some v ->
-  Run (c_fs c) v /\ exists ch, sub ch (c_fly c) /\
-    forall e, In e (all_entries v) <-> In e (concat (c_ack c) ++ concat ch).
+  Run (c_fs c) v /\ exists W, sel (c_hist c) W /\ explains W (all_entries v).
 Proof. exact open_store_contents. Qed.
 
 (* ---- 3b. sequence numbers stay fresh through any number of crashes and recoveries: every
@@ -104,20 +129,22 @@ Theorem C02_only_trash_renames_dropped : forall c m, dropped m ->
 Proof. exact only_trash_renames_ignored. Qed.
 
 (* ---- 6c. an error leaves a recoverable directory.  Whatever single call of an operation fails with
-   an injected I/O error (f = Some j; or none, f = None) — a call whose error ends the operation, a
-   rename whose error is dropped, or the manifest edit of compaction_finish whose error is kept
-   while the clean-up still runs — EVERY state the operation passes through (k calls of the
-   program considered, k arbitrary; k = its length is where it ends) is safe in the sense of
-   theorem 1: a crash there, under any cut, recovers to the acknowledged entries or those plus
-   the whole in-flight batch. *)
-Theorem C02_fault_leaves_recoverable : forall s v o f k, Run s v -> accepted v o ->
-  Safe (fst (run_prog (firstn k (fst (op_prog v s o))) f O s None)) (all_entries v) (op_batch v o).
+   an injected I/O error (f = Some j; or none, f = None) - a call whose error ends the operation, a
+   rename whose error is dropped, the manifest edit of compaction_finish whose error is kept
+   while the clean-up still runs, or a clean-up call of a merging compaction after which the
+   inputs are retired all the same - EVERY state the operation passes through (k calls of the
+   program considered, k arbitrary; k = its length is where it ends) is safe: a crash there, under
+   any cut, recovers to `op_base` or to `op_base ++ op_pend` - for a write the entries before it or
+   those plus the whole batch; for a flush the same entries; for a compaction the entries after it
+   or those before it. *)
+Theorem C02_fault_leaves_recoverable : forall s v o f k, Run s v -> op_fs_ok v o ->
+  Safe (fst (run_prog (firstn k (fst (op_prog v s o))) f O s None)) (op_base v o) (op_pend v o).
 Proof. exact fault_leaves_recoverable. Qed.
 
 (* ---- 6d. the same for recovery itself, after any history with any number of crashes. *)
 Theorem C02_recovery_fault_leaves_recoverable : forall c f k, reach c -> c_v c = None ->
-  exists ch, sub ch (c_fly c) /\
-    Safe (fst (run_prog (firstn k (fst (fst (open_prog (c_fs c))))) f O (c_fs c) None)) (concat (c_ack c) ++ concat ch) None.
+  exists E W, sel (c_hist c) W /\ explains W E /\
+    Safe (fst (run_prog (firstn k (fst (fst (open_prog (c_fs c))))) f O (c_fs c) None)) E None.
 Proof. exact recovery_fault_recoverable. Qed.
 
 (* ---- 7. what the predicates of 6c/6d mean, in terms of KeyValueStore::open only.
@@ -140,6 +167,40 @@ Theorem C02_safe_state_recovers : forall s E P img, Safe s E P -> cut s img ->
                forall e, In e (all_entries (snd (fst (open_prog img)))) <-> In e E'.
 Proof. exact safe_state_recovers. Qed.
 
+(* ---- 8. histories continue after an error.  `reach` has two more kinds of step: an operation
+   whose call j fails with an injected I/O error that is returned, when every file recovery reads
+   is as before (`same_rel`; the driver decides it with `same_relb`), and an operation the store
+   refuses without a call (a write after its log failed, a flush after the memtable thread died).
+   Theorems 1, 3, 3b, 4, 6d range over these histories too.  The step sst::log's fail-stop turns a
+   failed write() into, and the failed first call of a flush, are such steps: *)
+Theorem C02_error_at_log_write_is_step : forall c v b, reach c -> c_v c = Some v -> accepted v (OpWrite b) ->
+  reach (mkCfg (c_fs c) (Some (fault_next v (OpWrite b))) (hist_next v (OpWrite b) false (c_hist c))).
+Proof. exact error_at_log_write_is_step. Qed.
+
+Theorem C02_error_at_flush_start_is_step : forall c v, reach c -> c_v c = Some v ->
+  reach (mkCfg (c_fs c) (Some v) (c_hist c)).
+Proof. exact error_at_flush_start_is_step. Qed.
+
+Theorem C02_same_relb_sound : forall s s', same_relb s s' = true -> same_rel s s'.
+Proof. exact same_relb_sound. Qed.
+
+(* the state the driver continues from after an error is the transition system's; its programs are
+   the operation's or the empty refusal *)
+Theorem C02_driver_error_state : forall x o, x_v (xnext_err x o) = fault_next (x_v x) o.
+Proof. exact xnext_err_v. Qed.
+
+Theorem C02_driver_programs : forall x s o p flag, xop_prog x s o = Some (p, flag) ->
+  (p, flag) = op_prog (x_v x) s o \/ (p, flag) = ([], false).
+Proof. exact xop_prog_cases. Qed.
+
+(* ---- 8b. what is NOT continued (stated so that nobody reads more into 8): an error that strikes
+   after the operation changed a file recovery reads - the fdatasync of a log append or of a
+   manifest edit (the bytes are in the file, durable or not), a flush past its rollover (the old
+   log stays in the root), a compaction past its first hard link or past its manifest edit.  For
+   those, theorems 6c/7b still say that EVERY state the failing operation passes through, the one
+   it stops in included, recovers; what the running store does afterwards is judged by the check
+   against the specification only (no model in lock step). *)
+
 (* ---- non-vacuity: a concrete history — open, two writes, a flush that dies by power loss after
    the SST was linked into sst/ but before the manifest edit — is reachable, and recovery returns
    the three entries *)
@@ -147,8 +208,8 @@ Definition ex_b1 : list (key * option (list N)) := [([107; 49], Some [118; 49])]
 Definition ex_b2 : list (key * option (list N)) := [([107; 50], Some [118; 50]); ([107; 49], None)].
 
 Example ex_reachable_crash :
-  exists c, reach c /\ c_v c = None /\ c_ack c = [[mkE [107; 49] 3 (Some [118; 49])];
-                                                 [mkE [107; 50] 4 (Some [118; 50]); mkE [107; 49] 4 None]] /\
+  exists c, reach c /\ c_v c = None /\ c_hist c = [(true, [mkE [107; 49] 3 (Some [118; 49])]);
+                                                   (true, [mkE [107; 50] 4 (Some [118; 50]); mkE [107; 49] 4 None])] /\
             map fst (c_fs c) = [NSst [mkE [107; 49] 4 None; mkE [107; 49] 3 (Some [118; 49]); mkE [107; 50] 4 (Some [118; 50])];
                                 NTmp [mkE [107; 49] 4 None; mkE [107; 49] 3 (Some [118; 49]); mkE [107; 50] 4 (Some [118; 50])];
                                 NLog 4; NLog 1; NMani; NDir 7; NDir 6; NDir 5; NDir 4; NDir 3; NDir 2; NDir 1; NDir 0] /\
@@ -162,8 +223,60 @@ Proof.
       * eapply reach_step.
         -- eapply reach_step; [apply reach_init|].
            eapply step_open; [reflexivity|vm_compute; reflexivity|vm_compute; reflexivity].
-        -- eapply (step_op _ _ (OpWrite ex_b1)); [reflexivity|exact I|vm_compute; reflexivity|reflexivity].
-      * eapply (step_op _ _ (OpWrite ex_b2)); [reflexivity|exact I|vm_compute; reflexivity|reflexivity].
+        -- eapply (step_op _ _ (OpWrite ex_b1)); [reflexivity|apply acceptedb_sound; reflexivity|vm_compute; reflexivity|reflexivity].
+      * eapply (step_op _ _ (OpWrite ex_b2)); [reflexivity|apply acceptedb_sound; reflexivity|vm_compute; reflexivity|reflexivity].
     + eapply (step_op_crash _ _ OpFlush 5%nat); [reflexivity|exact I|apply cut_image_b].
+  - vm_compute. repeat split.
+Qed.
+
+(* ---- non-vacuity for garbage collection: put k1, flush, delete k1, flush, then a garbage
+   collection of the two tables that drops the tombstone together with the version under it (no
+   output at all) is an accepted step; power is lost inside it, after the manifest edit was written
+   but before its fdatasync: the edit is lost, recovery returns both entries, k1 reads as deleted *)
+Definition ex_s1 : sname := [mkE [107; 49] 3 (Some [118; 49])].
+Definition ex_s2 : sname := [mkE [107; 49] 5 None].
+
+Example ex_gc_crash :
+  exists c, reach c /\ c_v c = None /\
+            c_hist c = [(true, [mkE [107; 49] 3 (Some [118; 49])]); (true, [mkE [107; 49] 5 None])] /\
+            mani_strs (c_fs c) = [ex_s1; ex_s2] /\
+            vis (all_entries (snd (fst (open_prog (c_fs c))))) [107; 49] = None.
+Proof.
+  eexists. split.
+  - eapply reach_step.
+    + eapply reach_step.
+      * eapply reach_step.
+        -- eapply reach_step.
+           ++ eapply reach_step.
+              ** eapply reach_step; [apply reach_init|].
+                 eapply step_open; [reflexivity|vm_compute; reflexivity|vm_compute; reflexivity].
+              ** eapply (step_op _ _ (OpWrite ex_b1)); [reflexivity|apply acceptedb_sound; reflexivity|vm_compute; reflexivity|reflexivity].
+           ++ eapply (step_op _ _ OpFlush); [reflexivity|exact I|vm_compute; reflexivity|reflexivity].
+        -- eapply (step_op _ _ (OpWrite [([107; 49], None)])); [reflexivity|apply acceptedb_sound; reflexivity|vm_compute; reflexivity|reflexivity].
+      * eapply (step_op _ _ OpFlush); [reflexivity|exact I|vm_compute; reflexivity|reflexivity].
+    + eapply (step_op_crash _ _ (OpCompact true [ex_s1; ex_s2] []) 3%nat); [reflexivity|apply acceptedb_sound; vm_compute; reflexivity|apply cut_image_b].
+  - vm_compute. repeat split.
+Qed.
+
+(* ---- non-vacuity for 8: write k1; the write() of the next batch fails and the error is returned;
+   a third write is refused; power is lost: recovery returns the first batch only, and the history
+   records the other two as not acknowledged *)
+Example ex_continue_after_error :
+  exists c, reach c /\ c_v c = None /\
+            c_hist c = [(true, [mkE [107; 49] 3 (Some [118; 49])]); (false, [mkE [107; 50] 4 (Some [118; 50]); mkE [107; 49] 4 None]);
+                        (false, [mkE [107; 49] 5 None])] /\
+            all_entries (snd (fst (open_prog (c_fs c)))) = [mkE [107; 49] 3 (Some [118; 49])].
+Proof.
+  eexists. split.
+  - eapply reach_step.
+    + eapply reach_step.
+      * eapply reach_step.
+        -- eapply reach_step.
+           ++ eapply reach_step; [apply reach_init|].
+              eapply step_open; [reflexivity|vm_compute; reflexivity|vm_compute; reflexivity].
+           ++ eapply (step_op _ _ (OpWrite ex_b1)); [reflexivity|apply acceptedb_sound; reflexivity|vm_compute; reflexivity|reflexivity].
+        -- eapply (step_op_fault _ _ (OpWrite ex_b2) O); [reflexivity|apply acceptedb_sound; reflexivity|reflexivity|apply same_rel_refl].
+      * eapply (step_op_refused _ _ (OpWrite [([107; 49], None)])); [reflexivity|apply acceptedb_sound; reflexivity].
+    + eapply step_crash; [reflexivity|apply cut_image_b].
   - vm_compute. repeat split.
 Qed.
